@@ -66,7 +66,17 @@ def main():
                     'ran': 'tools/seedcheck.py (scratch copy of /repo/src + patch; suite via pytest against the copy; checks with DATEUTIL_SRC=<copy>)',
                     'checks': res, 'detected_by': sorted(k for k, v in res.items() if v['exit'] == 1),
                     'source': 'independent sub-agent given only the property text and a scratch worktree'}
-            json.dump(meta, open(os.path.join(dst, 'meta.json'), 'w'), indent=1)
+            mp = os.path.join(dst, 'meta.json')
+            if os.path.exists(mp) and os.environ.get('SEED_MERGE', '1') == '1':
+                try:
+                    prev = json.load(open(mp))
+                    merged = dict(prev.get('checks', {}))
+                    merged.update(res)
+                    meta['checks'] = merged
+                    meta['detected_by'] = sorted(k for k, v in merged.items() if v['exit'] == 1)
+                except Exception:
+                    pass
+            json.dump(meta, open(mp, 'w'), indent=1)
     finally:
         shutil.rmtree(tmp, ignore_errors=True)
         subprocess.run(['git', '-C', '/verif', 'checkout', '--', 'evidence'], capture_output=True)
